@@ -4,6 +4,7 @@
 //!   tab <op>;<op>;…       one history on a fresh `VerifTablets` (see lean/ScyllaVerif/Drive/C15.lean for the ops)
 //!   cs <op>;<op>;…        one history on a real `ClusterState` (`ClusterState::new`, `update_tablets`, `new_updated`):
 //!                         `P<id>[@<dc>[/<rack>]],…` topology (first) / metadata refresh, `L<t>:<first>:<last>:<reps>` learn,
+//!                         `B<item>|<item>|…` ONE `update_tablets` call with a whole batch (shadow: tablet by tablet, in order),
 //!                         `s<t>:<lo>:<hi>` / `d<t>:<token>@<dc>` lookups through `replica_locator()`.  Oracle after every
 //!                         step: every replica answered for any token is a current peer and the current `Node` object,
 //!                         and the answer is what the history shadow says (tablets with a replica on a host that left
@@ -920,26 +921,37 @@ impl CsRunner {
                 self.cs = Some(new_cs);
                 format!("P{}", crate::util::nat_list(&kept))
             }
-            'L' => {
+            'L' | 'B' => {
+                // `L`: a batch of one; `B`: ONE `update_tablets` call with the whole `|`-separated batch
                 self.cs.as_ref()?;
-                let parts: Vec<&str> = arg.split(':').collect();
-                if parts.len() != 4 {
-                    return None;
+                let items: Vec<&str> = if c == 'L' { vec![arg] } else { arg.split('|').collect() };
+                let mut batch: Vec<(usize, i64, i64, Vec<(u32, u32)>)> = Vec::new();
+                for it in items {
+                    let parts: Vec<&str> = it.split(':').collect();
+                    if parts.len() != 4 {
+                        return None;
+                    }
+                    let t: usize = match parts[0] {
+                        "0" => 0,
+                        "1" => 1,
+                        _ => return None,
+                    };
+                    let f: i64 = parts[1].parse().ok()?;
+                    let l: i64 = parts[2].parse().ok()?;
+                    let reps = parse_reps(parts[3])?;
+                    if token_new(f) > token_new(l) {
+                        return None;
+                    }
+                    batch.push((t, f, l, reps));
                 }
-                let t: usize = match parts[0] {
-                    "0" => 0,
-                    "1" => 1,
-                    _ => return None,
-                };
-                let f: i64 = parts[1].parse().ok()?;
-                let l: i64 = parts[2].parse().ok()?;
-                let reps = parse_reps(parts[3])?;
-                if token_new(f) > token_new(l) {
-                    return None;
+                let call: Vec<(String, String, i64, i64, Vec<(Uuid, u32)>)> =
+                    batch.iter().map(|(t, f, l, r)| ("k0".to_owned(), format!("t{}", t), *f, *l, to_uuid_reps(r))).collect();
+                self.cs.as_mut().unwrap().verif_update_tablets(&call);
+                // the shadow: tablet by tablet, in the order of the batch (a later tablet wins over an earlier one)
+                for (t, f, l, r) in &batch {
+                    self.tables[*t].insert(token_new(*f), token_new(*l), r, &self.nodes);
                 }
-                self.cs.as_mut().unwrap().verif_update_tablets(&[("k0".to_owned(), format!("t{}", t), f, l, to_uuid_reps(&reps))]);
-                self.tables[t].insert(token_new(f), token_new(l), &reps, &self.nodes);
-                "L".to_owned()
+                c.to_string()
             }
             's' => {
                 self.cs.as_ref()?;
@@ -1423,7 +1435,7 @@ fn cs_history(rng: &mut Rng, len: usize) -> String {
     let universe = 12 + rng.below(12) as i64;
     while ops.len() < len {
         match rng.below(100) {
-            0..=44 => {
+            0..=32 => {
                 let a = rng.range(0, universe);
                 let b = (a + match rng.below(3) { 0 => 0, 1 => rng.range(0, 3), _ => rng.range(0, universe) }).min(universe);
                 // replicas: mostly current peers, sometimes a host not (yet) known
@@ -1436,7 +1448,51 @@ fn cs_history(rng: &mut Rng, len: usize) -> String {
                     .collect();
                 ops.push(format!("L{}:{}:{}:{}", rng.below(2), a, b, reps.join(",")));
             }
-            45..=69 => {
+            33..=56 => {
+                // one `update_tablets` call with 1..=8 tablets: the same range again with other replicas (the tablet
+                // migrated between two responses), overlapping ranges, A,B,A patterns, both tables interleaved
+                let n = 1 + rng.below(8) as usize;
+                let mut items: Vec<(u64, i64, i64)> = Vec::new();
+                let mut out: Vec<String> = Vec::new();
+                for _ in 0..n {
+                    let (t, a, b) = if !items.is_empty() && rng.chance(1, 2) {
+                        let prev = items[rng.below(items.len() as u64) as usize];
+                        match rng.below(4) {
+                            // the very same table and range again
+                            0 | 1 => prev,
+                            // a range overlapping an earlier one of the batch
+                            2 => {
+                                let a = rng.range(prev.1, prev.2);
+                                (prev.0, a, (a + rng.range(0, 4)).min(universe))
+                            }
+                            // the same range in the other table
+                            _ => (1 - prev.0, prev.1, prev.2),
+                        }
+                    } else {
+                        let a = rng.range(0, universe);
+                        (rng.below(2), a, (a + rng.range(0, 5)).min(universe))
+                    };
+                    items.push((t, a, b));
+                    let k = 1 + rng.below(3);
+                    let reps: Vec<String> = (0..k)
+                        .map(|_| {
+                            let id = if rng.chance(1, 8) { rng.below(max_id as u64) as u32 } else { rng.pick(&peers).id };
+                            format!("{}.{}", id, rng.below(3))
+                        })
+                        .collect();
+                    out.push(format!("{}:{}:{}:{}", t, a, b, reps.join(",")));
+                }
+                // A, B, A: repeat the first tablet of the batch at its end, with its own replicas
+                if out.len() >= 2 && rng.chance(1, 3) {
+                    let first = out[0].clone();
+                    out.push(first);
+                }
+                ops.push(format!("B{}", out.join("|")));
+                if rng.chance(1, 2) {
+                    ops.push(format!("s{}:0:{}", rng.below(2), universe));
+                }
+            }
+            57..=69 => {
                 gen_refresh(rng, &mut peers, max_id);
                 ops.push(format!("P{}", fmt_cs_peers(&peers)));
                 if rng.chance(2, 3) {
